@@ -92,6 +92,9 @@ func execute(t *testing.T, sc *scen.Scenario, gen, sched *simrt.Tape, opt execOp
 			ex.Logs = s.Logs()
 			ex.Trace = s.TraceStrings()
 			ex.Gor = s.Goroutines()
+			if s.Stalls > 0 {
+				r.Faults["clock-jump"] += int(s.Stalls)
+			}
 			for _, p := range s.Panics {
 				lib := libraryPanic(p.Stack) || (strings.Contains(p.Where, "github.com/ThreeDotsLabs/watermill/") && !strings.Contains(p.Where, "verifsim"))
 				if lib {
